@@ -81,8 +81,48 @@ pub fn run(path: &str) -> i32 {
             let suffix = unhex(r["suffix"].as_str().unwrap_or("")).unwrap_or_default();
             crate::props_misc::replay_stream(&mut ctx, &item, &suffix);
         }
+        "nodeid-parse" => {
+            let b = unhex(r["hex"].as_str().unwrap_or("")).unwrap_or_default();
+            let res = enr::NodeId::parse(&b);
+            println!("NodeId::parse of {} bytes: {:?}", b.len(), res.is_ok());
+            if (b.len() == 32) != res.is_ok() {
+                ctx.violate("C16", "parse-length-not-strict", "replay", || format!("{} bytes accepted={}", b.len(), res.is_ok()), || r.clone());
+            }
+        }
+        "nodeid" => {
+            // a JSON string: accepted exactly when it is 64 hex digits with an optional single 0x prefix
+            if let Some(sv) = r["input"].as_str() {
+                let body = sv.strip_prefix("0x").unwrap_or(sv);
+                let want = body.len() == 64 && body.bytes().all(|c| c.is_ascii_hexdigit());
+                let got = serde_json::from_str::<enr::NodeId>(&serde_json::to_string(sv).unwrap());
+                println!("NodeId from {sv:?}: accepted={} expected={want}", got.is_ok());
+                if got.is_ok() != want {
+                    ctx.violate("C16", if want { "valid-hex-rejected" } else { "malformed-hex-accepted" }, "replay", || sv.to_string(), || r.clone());
+                }
+                if let (true, Ok(id)) = (want, got) {
+                    if Some(id.raw().to_vec()) != unhex(body) {
+                        ctx.violate("C16", "deserialised-id-differs", "replay", || sv.to_string(), || r.clone());
+                    }
+                    if want && body.len() == 64 {
+                        let raw = id.raw();
+                        let h = crate::util::hex(&raw);
+                        if format!("{id:?}") != format!("0x{h}") || format!("{id}") != format!("0x{}..{}", &h[..4], &h[60..]) || serde_json::to_string(&id).unwrap_or_default() != format!("\"0x{h}\"") {
+                            ctx.violate("C16", "display-form", "replay", || format!("{id} / {id:?}"), || r.clone());
+                        }
+                    }
+                }
+            }
+        }
+        "key-import" => {
+            let b = unhex(r["hex"].as_str().unwrap_or("")).unwrap_or_default();
+            crate::props_misc::replay_key_import(&mut ctx, r["which"].as_str().unwrap_or("secp"), &b);
+        }
+        "stream-seq" => {
+            let recs: Vec<Vec<u8>> = r["records"].as_array().map(|a| a.iter().filter_map(|x| x.as_str().and_then(unhex)).collect()).unwrap_or_default();
+            crate::props_misc::replay_stream_seq(&mut ctx, &recs);
+        }
         k => {
-            println!("INCONCLUSIVE replay kind {k:?} is re-run by the check itself");
+            println!("INCONCLUSIVE replay kind {k:?}: re-run the check itself (./check {prop} quick) to reproduce");
             return 2;
         }
     }
